@@ -4,3 +4,5 @@ import Ypv.Props.C06
 #print axioms Ypv.C06.sync_indices
 #print axioms Ypv.C06.key_report_follows_sync
 #print axioms Ypv.C06.value_report_follows_sync
+#print axioms Ypv.C06.diff_refl
+#print axioms Ypv.C06.keyed_of_no_key_sync
